@@ -1,6 +1,7 @@
 """C17 - is_closed() is sound and composites tear down late additions."""
 import itertools
 from common import *
+import ileave2
 import xcheck
 import gen
 import tgen
@@ -26,6 +27,20 @@ def alg_cases(tier, rng):
             n += 1
             cases.append(("a%d" % n, "(case a%d subalg %s (ops %s %s))" % (n, "local" if n % 2 else "threads", " ".join(h), tail),
                           {"kind": "algebra", "len": k}))
+    # a member whose own teardown appends another leaf (3) to the composite it sits in: by then the composite is closed, so the
+    # late addition is torn down at once (thread-safe form; the chained member is torn down through the composite only)
+    pre = ["", "(append 0)", "(append 0) (append 1)", "(die 0)"]
+    mid = ["", "(append 1)", "(append 2)", "(closed multi)", "(die 1)"]
+    post = ["", "(append 2)", "(unsub multi)", "(closed (leaf 3))", "(unsub (leaf 3))"]
+    for a in pre:
+        for b in mid:
+            for c in post:
+                for ch in ("(append_chained 2 3)", "(append_chained 1 3)"):
+                    if ("(append %s)" % ch.split()[1]) in (a + b) or ("(die %s)" % ch.split()[1]) in (a + b):
+                        continue
+                    n += 1
+                    h = " ".join(x for x in (a, ch, b, "(unsub multi)", c) if x)
+                    cases.append(("a%d" % n, "(case a%d subalg threads (ops %s %s (closed (leaf 3))))" % (n, h, tail), {"kind": "algebra", "len": "chained"}))
     return cases
 
 
@@ -58,7 +73,7 @@ def run(tier, seed, replay=None):
     proof_stage(rep, "C17")
     if not build_stage(rep):
         return rep.finish()
-    cases = load_replay_case(replay) if replay else alg_cases(tier, rng) + timed_cases(tier, rng)
+    cases = load_replay_case(replay) if replay else alg_cases(tier, rng) + timed_cases(tier, rng) + ileave2.cases(tier, rng, kinds=("hot",))
     res = correspond(rep, "C17", cases, "C17_closed_sound / C17_algebra_closed_sound / C17_late_additions / C17_closed_stable")
     xcheck.cross_check(rep, "C17", cases, res, 40 if tier == "quick" else 400)
     c = rep.coverage
@@ -72,9 +87,11 @@ def run(tier, seed, replay=None):
                  "the composite, of leaves, of unit and of pairs mixing them} on MultiSubscription / ZipSubscription and the _threads forms, each "
                  "followed by a fixed tail of is_closed queries; observation = which leaf teardown ran and every is_closed answer; judged by the "
                  "extracted predicate alg_ok (closed implies all held leaves dead; late additions torn down; closed never becomes false) and "
-                 "compared with the model; (b) 12 scheduler-using operators / time sources with is_closed() sampled after every label of random "
+                 "compared with the model, plus histories in which a member's own teardown appends another leaf to the composite; (b) 12 scheduler-using operators / time sources with is_closed() sampled after every label of random "
                  "label sequences; judged by 'no delivery after is_closed() answered true' (part of timed_ok via the model comparison) and "
-                 "compared with the model" % (4 if tier == "quick" else 5))
+                 "compared with the model; (c) is_closed() of a SubjectThreads subscription asked by other threads while the subject is being "
+                 "terminated or the subscription unsubscribed, under every schedule with <= 3 context switches at mutex granularity: once it "
+                 "has answered true nothing is delivered and it never answers false" % (4 if tier == "quick" else 5))
     rep.assumptions = ["ref-count (share) and finalizer subscriptions are decided under C11 / C15",
                        "subscriptions of untimed chains are Subscriber slots or (): their is_closed is part of the C06 / C02 observations"]
     return rep.finish()
